@@ -780,4 +780,464 @@ theorem spTrsv_UN (F : LUFac K) (H : SCLayout F) (unit : Bool) (b : Array K) (hb
 
 end UN
 
+/-! ### transposed solves: row oriented -/
+
+section TR
+variable {K : Type} [Field K] [Conj K] [Inhabited K]
+
+/-- gather phase: column `jj` of the block receives `- sum_a x[rd jj a] * cf jj a` -/
+def gatherTo {α : Type} (ls : Nat → List α) (rd : Nat → α → Nat) (cf : Nat → α → K) (f : Nat) (x : Array K) (t : Nat) : Array K :=
+  (List.range t).foldl (fun (x : Array K) jj =>
+    (ls jj).foldl (fun (x : Array K) a => x.setIfInBounds (f + jj) (x[f + jj]! - x[rd jj a]! * cf jj a)) x) x
+
+theorem gatherTo_spec {α : Type} (ls : Nat → List α) (rd : Nat → α → Nat) (cf : Nat → α → K) (f w : Nat) (x : Array K)
+    (hb : f + w ≤ x.size) (hrd : ∀ jj, jj < w → ∀ a ∈ ls jj, rd jj a < f ∨ f + w ≤ rd jj a) (t : Nat) (ht : t ≤ w) :
+    (gatherTo ls rd cf f x t).size = x.size ∧
+    (∀ jj, jj < t → (gatherTo ls rd cf f x t)[f + jj]! = x[f + jj]! - ((ls jj).map fun a => x[rd jj a]! * cf jj a).sum) ∧
+    (∀ p, (p < f ∨ f + t ≤ p) → (gatherTo ls rd cf f x t)[p]! = x[p]!) := by
+  induction t with
+  | zero => simp [gatherTo]
+  | succ t ih =>
+    obtain ⟨h1, h2, h3⟩ := ih (by omega)
+    have hstep : gatherTo ls rd cf f x (t + 1) = (ls t).foldl (fun (x : Array K) a =>
+        x.setIfInBounds (f + t) (x[f + t]! - x[rd t a]! * cf t a)) (gatherTo ls rd cf f x t) := by
+      simp [gatherTo, List.range_succ, List.foldl_append]
+    generalize hxt : gatherTo ls rd cf f x t = xt at h1 h2 h3 hstep
+    obtain ⟨q1, q2, q3⟩ := foldl_gather (f + t) (ls t) (rd t) (cf t) xt (by omega)
+      (fun a ha => by have := hrd t (by omega) a ha; omega)
+    rw [hstep]
+    refine ⟨by rw [q1, h1], ?_, ?_⟩
+    · intro jj hjj
+      by_cases he : jj = t
+      · subst he
+        rw [q2, h3 _ (Or.inr (le_refl _))]
+        congr 2
+        apply List.map_congr_left
+        intro a ha
+        rw [h3 _ (by have := hrd jj (by omega) a ha; omega)]
+      · rw [q3 _ (by omega), h2 jj (by omega)]
+    · intro p hp
+      rw [q3 p (by omega), h3 p (by omega)]
+
+/-- `dtrsv("L", trans, "U")`: unit lower transposed solve with the block, rows from the last one -/
+def ltsolveTo (C : Nat → Nat → K) (f w : Nat) (x : Array K) (t : Nat) : Array K :=
+  (List.range t).foldl (fun (x : Array K) t =>
+    let j := w - 1 - t
+    x.setIfInBounds (f + j)
+      ((List.range (w - 1 - j)).foldl (fun (acc : K) d =>
+        let i := j + 1 + d
+        acc - C i j * x[f + i]!) x[f + j]!)) x
+
+theorem ltsolveTo_spec (C : Nat → Nat → K) (f w : Nat) (x : Array K) (hb : f + w ≤ x.size) (z : Nat → K)
+    (hz : ∀ j, j < w → z j = x[f + j]! - ∑ i ∈ Ico (j + 1) w, C i j * z i) (t : Nat) (ht : t ≤ w) :
+    (ltsolveTo C f w x t).size = x.size ∧
+    (∀ i, i < w → (ltsolveTo C f w x t)[f + i]! = if w - t ≤ i then z i else x[f + i]!) ∧
+    (∀ p, (p < f ∨ f + w ≤ p) → (ltsolveTo C f w x t)[p]! = x[p]!) := by
+  induction t with
+  | zero =>
+    refine ⟨rfl, fun i hi => ?_, fun p _ => rfl⟩
+    simp only [ltsolveTo, List.range_zero, List.foldl_nil, Nat.sub_zero]
+    rw [if_neg (by omega)]
+  | succ t ih =>
+    obtain ⟨h1, h2, h3⟩ := ih (by omega)
+    have hstep : ltsolveTo C f w x (t + 1) = (ltsolveTo C f w x t).setIfInBounds (f + (w - 1 - t))
+        ((List.range (w - 1 - (w - 1 - t))).foldl (fun (acc : K) d =>
+          acc - C (w - 1 - t + 1 + d) (w - 1 - t) * (ltsolveTo C f w x t)[f + (w - 1 - t + 1 + d)]!)
+          (ltsolveTo C f w x t)[f + (w - 1 - t)]!) := by
+      simp [ltsolveTo, List.range_succ, List.foldl_append]
+    generalize hxt : ltsolveTo C f w x t = xt at h1 h2 h3 hstep
+    have hval : (List.range (w - 1 - (w - 1 - t))).foldl (fun (acc : K) d =>
+          acc - C (w - 1 - t + 1 + d) (w - 1 - t) * xt[f + (w - 1 - t + 1 + d)]!) xt[f + (w - 1 - t)]! = z (w - 1 - t) := by
+      rw [foldl_sub_range, h2 _ (by omega), if_neg (by omega), hz _ (by omega), Finset.sum_Ico_eq_sum_range]
+      have : w - (w - 1 - t + 1) = w - 1 - (w - 1 - t) := by omega
+      rw [this]
+      congr 1
+      apply Finset.sum_congr rfl
+      intro d hd
+      have hd' := mem_range.mp hd
+      rw [h2 _ (by omega), if_pos (by omega)]
+    rw [hstep, hval]
+    refine ⟨by simp [h1], ?_, ?_⟩
+    · intro i hi
+      rw [getElem!_setIfInBounds]
+      by_cases he : i = w - 1 - t
+      · rw [if_pos (show f + (w - 1 - t) = f + i ∧ f + (w - 1 - t) < xt.size from ⟨by rw [he], by omega⟩),
+          if_pos (show w - (t + 1) ≤ i by omega), he]
+      · rw [if_neg (show ¬ (f + (w - 1 - t) = f + i ∧ f + (w - 1 - t) < xt.size) by omega), h2 i hi]
+        by_cases h' : w - t ≤ i
+        · rw [if_pos h', if_pos (show w - (t + 1) ≤ i by omega)]
+        · rw [if_neg h', if_neg (show ¬ w - (t + 1) ≤ i by omega)]
+    · intro p hp
+      rw [getElem!_setIfInBounds, if_neg (show ¬ (f + (w - 1 - t) = p ∧ f + (w - 1 - t) < xt.size) by omega), h3 p hp]
+
+/-- `dtrsv("U", trans, diag)`: upper transposed solve with the block, rows from the first one -/
+def utsolveTo (C : Nat → Nat → K) (dv : Nat → K → K) (f : Nat) (x : Array K) (t : Nat) : Array K :=
+  (List.range t).foldl (fun (x : Array K) j =>
+    let acc := (List.range j).foldl (fun (acc : K) i => acc - C i j * x[f + i]!) x[f + j]!
+    x.setIfInBounds (f + j) (dv j acc)) x
+
+theorem utsolveTo_spec (C : Nat → Nat → K) (dv : Nat → K → K) (f : Nat) (x : Array K) (w : Nat) (hb : f + w ≤ x.size)
+    (z : Nat → K) (hz : ∀ j, j < w → z j = dv j (x[f + j]! - ∑ i ∈ range j, C i j * z i)) (t : Nat) (ht : t ≤ w) :
+    (utsolveTo C dv f x t).size = x.size ∧ (∀ i, i < t → (utsolveTo C dv f x t)[f + i]! = z i) ∧
+    (∀ p, (p < f ∨ f + t ≤ p) → (utsolveTo C dv f x t)[p]! = x[p]!) := by
+  induction t with
+  | zero => simp [utsolveTo]
+  | succ t ih =>
+    obtain ⟨h1, h2, h3⟩ := ih (by omega)
+    have hstep : utsolveTo C dv f x (t + 1) = (utsolveTo C dv f x t).setIfInBounds (f + t)
+        (dv t ((List.range t).foldl (fun (acc : K) i => acc - C i t * (utsolveTo C dv f x t)[f + i]!)
+          (utsolveTo C dv f x t)[f + t]!)) := by
+      simp [utsolveTo, List.range_succ, List.foldl_append]
+    rw [hstep]
+    refine ⟨by simp [h1], ?_, ?_⟩
+    · intro i hi
+      rw [getElem!_setIfInBounds, h1]
+      by_cases hit : i = t
+      · subst hit
+        rw [if_pos ⟨rfl, by omega⟩, foldl_sub_range, h3 (f + i) (Or.inr (le_refl _)), hz i (by omega)]
+        congr 2
+        apply Finset.sum_congr rfl
+        intro j hj
+        rw [h2 j (mem_range.mp hj)]
+      · rw [if_neg (by omega)]
+        exact h2 i (by omega)
+    · intro p hp
+      rw [getElem!_setIfInBounds, if_neg (by omega)]
+      exact h3 p (by omega)
+
+/-- the laws of the conjugation the transposed / conjugated solves rely on -/
+structure ConjOK (K : Type) [Field K] [Conj K] : Prop where
+  zero : Conj.conj (0 : K) = 0
+  one : Conj.conj (1 : K) = 1
+  add : ∀ a b : K, Conj.conj (a + b) = Conj.conj a + Conj.conj b
+
+theorem cj_N (v : K) : cj Tr.N v = v := rfl
+theorem cj_T (v : K) : cj Tr.T v = v := rfl
+theorem cj_C (v : K) : cj Tr.C v = Conj.conj v := rfl
+
+theorem cj_zero (tr : Tr) (h : tr = Tr.C → ConjOK K) : cj tr (0 : K) = 0 := by
+  cases tr
+  · rfl
+  · rfl
+  · rw [cj_C]; exact (h rfl).zero
+
+theorem cj_one (tr : Tr) (h : tr = Tr.C → ConjOK K) : cj tr (1 : K) = 1 := by
+  cases tr
+  · rfl
+  · rfl
+  · rw [cj_C]; exact (h rfl).one
+
+theorem cj_add (tr : Tr) (h : tr = Tr.C → ConjOK K) (a b : K) : cj tr (a + b) = cj tr a + cj tr b := by
+  cases tr
+  · rfl
+  · rfl
+  · simp only [cj_C]; exact (h rfl).add a b
+
+theorem cj_list_sum (tr : Tr) (h : tr = Tr.C → ConjOK K) (l : List K) : cj tr l.sum = (l.map (cj tr)).sum := by
+  induction l with
+  | nil => simpa using cj_zero tr h
+  | cons a l ih => rw [List.sum_cons, cj_add tr h, ih, List.map_cons, List.sum_cons]
+
+theorem opM_tr (tr : Tr) (htr : tr ≠ Tr.N) (T : Nat → Nat → K) (i j : Nat) : opM tr T i j = cj tr (T j i) := by
+  cases tr
+  · exact absurd rfl htr
+  · rfl
+  · rfl
+
+variable {F : LUFac K} {k : Nat}
+
+/-- a sum over the rows below the diagonal of column `fsupc + c` of `L`, read through the row list -/
+theorem SnOK.sum_col (G : SnOK F k) (c : Nat) (hc : c < (snode F.L k).nsupc) (φ : Nat → K → K) (hφ : ∀ i, φ i 0 = 0) :
+    ∑ i ∈ Ico ((snode F.L k).fsupc + c + 1) F.L.n, φ i (F.decodeL i ((snode F.L k).fsupc + c)) =
+      ∑ p ∈ Ico (c + 1) (snode F.L k).nsupr, φ (rowAt F.L (snode F.L k) p) (blk F.L (snode F.L k) p c) := by
+  have himg : ∑ p ∈ Ico (c + 1) (snode F.L k).nsupr, φ (rowAt F.L (snode F.L k) p) (blk F.L (snode F.L k) p c) =
+      ∑ i ∈ (Ico (c + 1) (snode F.L k).nsupr).image (rowAt F.L (snode F.L k)),
+        φ i (F.decodeL i ((snode F.L k).fsupc + c)) := by
+    rw [Finset.sum_image]
+    · apply Finset.sum_congr rfl
+      intro p hp
+      have hp' := Finset.mem_Ico.mp hp
+      rw [G.decodeL_hit c p hc (by omega) hp'.2]
+    · intro p hp q hq h
+      have hp' := Finset.mem_Ico.mp (Finset.mem_coe.mp hp)
+      have hq' := Finset.mem_Ico.mp (Finset.mem_coe.mp hq)
+      exact G.rowAt_inj p q hp'.2 hq'.2 h
+  rw [himg]
+  symm
+  apply Finset.sum_subset
+  · intro i hi
+    obtain ⟨p, hp, rfl⟩ := Finset.mem_image.mp hi
+    have hp' := Finset.mem_Ico.mp hp
+    refine Finset.mem_Ico.mpr ⟨?_, G.rowAt_lt p hp'.2⟩
+    by_cases hpw : p < (snode F.L k).nsupc
+    · rw [G.lead p hpw]; omega
+    · have := (G.trail p (by omega) hp'.2).1; omega
+  · intro i hi hni
+    have hi' := Finset.mem_Ico.mp hi
+    rw [G.decodeL_miss c i hc (by omega), hφ]
+    intro p hcp hp h
+    exact hni (Finset.mem_image.mpr ⟨p, Finset.mem_Ico.mpr ⟨by omega, hp⟩, h⟩)
+
+/-- one supernode of `trsvLT` -/
+def stepLT (F : LUFac K) (tr : Tr) (s : SN) (x : Array K) : Array K :=
+  ltsolveTo (fun i j => cj tr (blk F.L s i j)) s.fsupc s.nsupc
+    (gatherTo (fun _ => List.range (s.nsupr - s.nsupc)) (fun _ i => F.L.lsub[s.istart + s.nsupc + i]!)
+      (fun jj i => cj tr (blk F.L s (s.nsupc + i) jj)) s.fsupc x s.nsupc) s.nsupc
+
+theorem trsvLT_eq (F : LUFac K) (tr : Tr) (x : Array K) :
+    trsvLT F tr x = (List.range (F.L.nsuper + 1)).foldl (fun x kk => stepLT F tr (snode F.L (F.L.nsuper - kk)) x) x := rfl
+
+/-- state of a row-oriented back substitution after the rows `≥ c` -/
+def InvB (b y : Nat → K) (n c : Nat) (x : Array K) : Prop :=
+  x.size = n ∧ (∀ i, c ≤ i → i < n → x[i]! = y i) ∧ (∀ i, i < c → x[i]! = b i)
+
+theorem stepLT_inv (F : LUFac K) (tr : Tr) (htr : tr = Tr.C → ConjOK K) (k : Nat) (G : SnOK F k)
+    (M : Nat → Nat → K) (b y : Nat → K)
+    (hM : ∀ i j, i ≠ j → M i j = cj tr (F.decodeL j i))
+    (hy : ∀ i, i < F.L.n → y i = b i - ∑ j ∈ Ico (i + 1) F.L.n, M i j * y j)
+    (x : Array K) (hinv : InvB b y F.L.n ((snode F.L k).fsupc + (snode F.L k).nsupc) x) :
+    InvB b y F.L.n (snode F.L k).fsupc (stepLT F tr (snode F.L k) x) := by
+  obtain ⟨hs, hhi, hlo⟩ := hinv
+  have g_hi := G.hi; have g_le := G.le_n; have hwr := G.wle; have g_lead := G.lead; have g_trail := G.trail
+  have g_sum := G.sum_col
+  generalize hsd : snode F.L k = s at *
+  have hwn : s.fsupc + s.nsupc ≤ F.L.n := by omega
+  have hpos : ∀ i, F.L.lsub[s.istart + s.nsupc + i]! = rowAt F.L s (s.nsupc + i) := by
+    intro i; unfold rowAt; rw [Nat.add_assoc]
+  obtain ⟨p1, p2, p3⟩ := gatherTo_spec (fun _ => List.range (s.nsupr - s.nsupc)) (fun _ i => F.L.lsub[s.istart + s.nsupc + i]!)
+    (fun jj i => cj tr (blk F.L s (s.nsupc + i) jj)) s.fsupc s.nsupc x (by omega)
+    (fun jj hjj a ha => by
+      have ha' := List.mem_range.mp ha
+      have := (g_trail (s.nsupc + a) (by omega) (by omega)).1
+      rw [hpos]; omega) s.nsupc (le_refl _)
+  unfold stepLT
+  generalize hx1 : gatherTo (fun _ => List.range (s.nsupr - s.nsupc)) (fun _ i => F.L.lsub[s.istart + s.nsupc + i]!)
+    (fun jj i => cj tr (blk F.L s (s.nsupc + i) jj)) s.fsupc x s.nsupc = x1 at *
+  have hz : ∀ j, j < s.nsupc → y (s.fsupc + j) =
+      x1[s.fsupc + j]! - ∑ i ∈ Ico (j + 1) s.nsupc, (fun i j => cj tr (blk F.L s i j)) i j * y (s.fsupc + i) := by
+    intro j hj
+    have e1 : ∑ i ∈ Ico (s.fsupc + j + 1) F.L.n, M (s.fsupc + j) i * y i =
+        ∑ i ∈ Ico (s.fsupc + j + 1) F.L.n, (fun i v => cj tr v * y i) i (F.decodeL i (s.fsupc + j)) := by
+      apply Finset.sum_congr rfl
+      intro i hi
+      have hi' := Finset.mem_Ico.mp hi
+      rw [hM _ _ (by omega)]
+    have eA : ∑ p ∈ Ico (j + 1) s.nsupc, (fun i v => cj tr v * y i) (rowAt F.L s p) (blk F.L s p j) =
+        ∑ i ∈ Ico (j + 1) s.nsupc, cj tr (blk F.L s i j) * y (s.fsupc + i) := by
+      apply Finset.sum_congr rfl
+      intro i hi
+      have hi' := Finset.mem_Ico.mp hi
+      simp only
+      rw [g_lead i hi'.2]
+    have eB : ∑ p ∈ Ico s.nsupc s.nsupr, (fun i v => cj tr v * y i) (rowAt F.L s p) (blk F.L s p j) =
+        ((List.range (s.nsupr - s.nsupc)).map fun a =>
+          x[F.L.lsub[s.istart + s.nsupc + a]!]! * cj tr (blk F.L s (s.nsupc + a) j)).sum := by
+      rw [list_range_map_sum, Finset.sum_Ico_eq_sum_range]
+      apply Finset.sum_congr rfl
+      intro i hi
+      have hi' := mem_range.mp hi
+      simp only
+      rw [hpos, hhi _ (by have := (g_trail (s.nsupc + i) (by omega) (by omega)).1; omega)
+        (g_trail (s.nsupc + i) (by omega) (by omega)).2]
+      ring
+    rw [hy _ (by omega), e1, g_sum j hj (fun i v => cj tr v * y i) (fun i => by simp [cj_zero tr htr]),
+      ← Finset.sum_Ico_consecutive _ (show j + 1 ≤ s.nsupc by omega) hwr, eA, eB, p2 j hj, hlo _ (by omega)]
+    ring
+  obtain ⟨q1, q2, q3⟩ := ltsolveTo_spec (fun i j => cj tr (blk F.L s i j)) s.fsupc s.nsupc x1 (by omega)
+    (fun i => y (s.fsupc + i)) hz s.nsupc (le_refl _)
+  refine ⟨by rw [q1, p1, hs], ?_, ?_⟩
+  · intro i hi hin
+    by_cases hiw : i < s.fsupc + s.nsupc
+    · have : i = s.fsupc + (i - s.fsupc) := by omega
+      rw [this, q2 _ (by omega), if_pos (by omega)]
+    · rw [q3 i (Or.inr (by omega)), p3 i (Or.inr (by omega))]; exact hhi i (by omega) hin
+  · intro i hi
+    rw [q3 i (Or.inl hi), p3 i (Or.inl hi)]; exact hlo i (by omega)
+
+theorem trsvLT_correct (F : LUFac K) (H : SCLayout F) (tr : Tr) (htr : tr = Tr.C → ConjOK K)
+    (M : Nat → Nat → K) (b y : Nat → K)
+    (hM : ∀ i j, i ≠ j → M i j = cj tr (F.decodeL j i))
+    (hy : ∀ i, i < F.L.n → y i = b i - ∑ j ∈ Ico (i + 1) F.L.n, M i j * y j)
+    (x : Array K) (hx : x.size = F.L.n) (hb : ∀ i, i < F.L.n → x[i]! = b i) :
+    ∀ i, i < F.L.n → (trsvLT F tr x)[i]! = y i := by
+  rw [trsvLT_eq]
+  have := fold_down (fun k x => stepLT F tr (snode F.L k) x) (fun c x => InvB b y F.L.n c x)
+    (fun k => F.L.xsup[k]!) F.L.nsuper
+    (fun k hk x hinv => by
+      have G := H.sn k (by omega)
+      apply stepLT_inv F tr htr k G M b y hM hy x
+      rw [G.hi]; exact hinv) x
+    (by rw [H.last]; exact ⟨hx, fun i hi hi' => by omega, fun i hi => hb i hi⟩)
+  rw [H.first] at this
+  intro i hi
+  exact this.2.1 i (by omega) hi
+
+theorem toArray_get (l : List K) (i : Nat) (hi : i < l.length) : l.toArray[i]! = l.getD i 0 := by
+  simp [hi, List.getD_eq_getElem?_getD]
+
+theorem spTrsv_LT (F : LUFac K) (H : SCLayout F) (tr : Tr) (htn : tr ≠ Tr.N) (htr : tr = Tr.C → ConjOK K)
+    (unit : Bool) (b : Array K) (hb : b.size = F.L.n) :
+    ∀ i, i < F.L.n → (spTrsv F .L tr unit b)[i]! = (trsvRef F .L tr unit b)[i]! := by
+  intro i hi
+  have hn : (F.L.n == 0) = false := by simp; omega
+  have hl : effLower .L tr = false := by cases tr <;> first | exact absurd rfl htn | rfl
+  have hsp : spTrsv F .L tr unit b = trsvLT F tr b := by
+    cases tr
+    · exact absurd rfl htn
+    · simp [spTrsv, hn]
+    · simp [spTrsv, hn]
+  simp only [hsp, trsvRef, hl, Bool.false_eq_true, if_false]
+  have hLL : (UpLo.L == UpLo.L) = true := rfl
+  have hoff : ∀ i j, i ≠ j → trsvMat F .L tr unit i j = cj tr (F.decodeL j i) := by
+    intro i j hij
+    rw [trsvMat_offdiag F _ _ _ i j hij, opM_tr tr htn]; rfl
+  have hdiag : ∀ i, trsvMat F .L tr unit i i = 1 := by
+    intro i; unfold trsvMat
+    cases unit
+    · simp only [Bool.false_and, Bool.false_eq_true, if_false, hLL, if_true]
+      rw [opM_tr tr htn, decodeL_diag, cj_one tr htr]
+    · simp
+  rw [toArray_get (bwdSub _ _ _ _ _) i (by rw [bwdSub_length]; exact hi)]
+  refine trsvLT_correct F H tr htr (trsvMat F .L tr unit) (fun i => b.getD i 0)
+    (fun i => (bwdSub (trsvMat F .L tr unit) (fun i => trsvMat F .L tr unit i i) (fun i => b.getD i 0) F.L.n F.L.n).getD i 0)
+    hoff ?_ b hb ?_ i hi
+  · intro i hi
+    have := bwd_rec (trsvMat F .L tr unit) (fun i => trsvMat F .L tr unit i i) (fun i => b.getD i 0) F.L.n i hi
+    rw [hdiag, div_one] at this
+    exact this
+  · intro i hi; exact getElem!_eq_getD_of_lt b i (by omega)
+
+/-- one supernode of `trsvUT` -/
+def stepUT (F : LUFac K) (tr : Tr) (unit : Bool) (s : SN) (x : Array K) : Array K :=
+  utsolveTo (fun i j => cj tr (blk F.L s i j)) (fun j acc => if unit then acc else acc / cj tr (blk F.L s j j)) s.fsupc
+    (gatherTo (fun jj => F.U.col (s.fsupc + jj)) (fun _ (e : Nat × K) => e.1) (fun _ (e : Nat × K) => cj tr e.2)
+      s.fsupc x s.nsupc) s.nsupc
+
+theorem trsvUT_eq (F : LUFac K) (tr : Tr) (unit : Bool) (x : Array K) :
+    trsvUT F tr unit x = (List.range (F.L.nsuper + 1)).foldl (fun x k => stepUT F tr unit (snode F.L k) x) x := rfl
+
+/-- state of a row-oriented forward substitution after the rows `< c` -/
+def InvF (b y : Nat → K) (n c : Nat) (x : Array K) : Prop :=
+  x.size = n ∧ (∀ i, i < c → x[i]! = y i) ∧ (∀ i, c ≤ i → i < n → x[i]! = b i)
+
+theorem stepUT_inv (F : LUFac K) (tr : Tr) (htr : tr = Tr.C → ConjOK K) (unit : Bool) (k : Nat) (G : SnOK F k)
+    (M : Nat → Nat → K) (b y : Nat → K)
+    (hM : ∀ i j, i ≠ j → M i j = cj tr (F.decodeU j i))
+    (hd : ∀ i, M i i = if unit then 1 else cj tr (F.decodeU i i))
+    (hy : ∀ i, i < F.L.n → y i = (b i - ∑ j ∈ range i, M i j * y j) / M i i)
+    (x : Array K) (hinv : InvF b y F.L.n (snode F.L k).fsupc x) :
+    InvF b y F.L.n ((snode F.L k).fsupc + (snode F.L k).nsupc) (stepUT F tr unit (snode F.L k) x) := by
+  obtain ⟨hs, hlo, hhi⟩ := hinv
+  have g_hi := G.hi; have g_le := G.le_n; have g_blk := G.decodeU_blk; have g_above := G.decodeU_above
+  have g_uab := G.uabove
+  generalize hsd : snode F.L k = s at *
+  have hwn : s.fsupc + s.nsupc ≤ F.L.n := by omega
+  obtain ⟨p1, p2, p3⟩ := gatherTo_spec (fun jj => F.U.col (s.fsupc + jj)) (fun _ (e : Nat × K) => e.1)
+    (fun _ (e : Nat × K) => cj tr e.2) s.fsupc s.nsupc x (by omega)
+    (fun jj hjj a ha => Or.inl (g_uab jj hjj a ha)) s.nsupc (le_refl _)
+  unfold stepUT
+  generalize hx1 : gatherTo (fun jj => F.U.col (s.fsupc + jj)) (fun _ (e : Nat × K) => e.1)
+    (fun _ (e : Nat × K) => cj tr e.2) s.fsupc x s.nsupc = x1 at *
+  have hz : ∀ j, j < s.nsupc → y (s.fsupc + j) =
+      (fun j acc => if unit then acc else acc / cj tr (blk F.L s j j)) j
+        (x1[s.fsupc + j]! - ∑ i ∈ range j, (fun i j => cj tr (blk F.L s i j)) i j * y (s.fsupc + i)) := by
+    intro j hj
+    have eA : ∑ i ∈ range s.fsupc, M (s.fsupc + j) i * y i =
+        ((F.U.col (s.fsupc + j)).map fun e => x[e.1]! * cj tr e.2).sum := by
+      rw [sum_by_key (F.U.col (s.fsupc + j)) s.fsupc (fun e => x[e.1]! * cj tr e.2) (g_uab j hj)]
+      apply Finset.sum_congr rfl
+      intro i hi
+      have hi' := mem_range.mp hi
+      rw [hM _ _ (by omega), g_above i j hj hi', Uget_eq, cj_list_sum tr htr, List.map_map, ← List.sum_map_mul_right]
+      congr 1
+      apply List.map_congr_left
+      intro e he
+      have : e.1 = i := by simpa using (List.mem_filter.mp he).2
+      simp only [Function.comp]
+      rw [this, hlo i hi']
+      ring
+    have eB : ∑ i ∈ range j, M (s.fsupc + j) (s.fsupc + i) * y (s.fsupc + i) =
+        ∑ i ∈ range j, cj tr (blk F.L s i j) * y (s.fsupc + i) := by
+      apply Finset.sum_congr rfl
+      intro i hi
+      have hi' := mem_range.mp hi
+      rw [hM _ _ (by omega), g_blk i j hj (by omega)]
+    rw [hy _ (by omega), Finset.sum_range_add, eA, eB, p2 j hj, hhi _ (by omega) (by omega), hd, g_blk j j hj (le_refl _)]
+    cases unit
+    · simp only [Bool.false_eq_true, if_false]; congr 1; ring
+    · simp only [if_true, div_one]; ring
+  obtain ⟨q1, q2, q3⟩ := utsolveTo_spec (fun i j => cj tr (blk F.L s i j))
+    (fun j acc => if unit then acc else acc / cj tr (blk F.L s j j)) s.fsupc x1 s.nsupc (by omega)
+    (fun i => y (s.fsupc + i)) hz s.nsupc (le_refl _)
+  refine ⟨by rw [q1, p1, hs], ?_, ?_⟩
+  · intro i hi
+    by_cases hif : i < s.fsupc
+    · rw [q3 i (Or.inl hif), p3 i (Or.inl hif)]; exact hlo i hif
+    · have : i = s.fsupc + (i - s.fsupc) := by omega
+      rw [this, q2 _ (by omega)]
+  · intro i hi hin
+    rw [q3 i (Or.inr hi), p3 i (Or.inr hi)]; exact hhi i (by omega) hin
+
+theorem trsvUT_correct (F : LUFac K) (H : SCLayout F) (tr : Tr) (htr : tr = Tr.C → ConjOK K) (unit : Bool)
+    (M : Nat → Nat → K) (b y : Nat → K)
+    (hM : ∀ i j, i ≠ j → M i j = cj tr (F.decodeU j i))
+    (hd : ∀ i, M i i = if unit then 1 else cj tr (F.decodeU i i))
+    (hy : ∀ i, i < F.L.n → y i = (b i - ∑ j ∈ range i, M i j * y j) / M i i)
+    (x : Array K) (hx : x.size = F.L.n) (hb : ∀ i, i < F.L.n → x[i]! = b i) :
+    ∀ i, i < F.L.n → (trsvUT F tr unit x)[i]! = y i := by
+  rw [trsvUT_eq]
+  have := fold_up (fun k x => stepUT F tr unit (snode F.L k) x) (fun c x => InvF b y F.L.n c x)
+    (fun k => F.L.xsup[k]!) (F.L.nsuper + 1)
+    (fun k hk x hinv => by
+      have G := H.sn k hk
+      have := stepUT_inv F tr htr unit k G M b y hM hd hy x hinv
+      rw [G.hi] at this; exact this) x
+    (by rw [H.first]; exact ⟨hx, fun i hi => by omega, fun i _ hi => hb i hi⟩)
+  rw [H.last] at this
+  exact this.2.1
+
+theorem spTrsv_UT (F : LUFac K) (H : SCLayout F) (tr : Tr) (htn : tr ≠ Tr.N) (htr : tr = Tr.C → ConjOK K)
+    (unit : Bool) (b : Array K) (hb : b.size = F.L.n) :
+    ∀ i, i < F.L.n → (spTrsv F .U tr unit b)[i]! = (trsvRef F .U tr unit b)[i]! := by
+  intro i hi
+  have hn : (F.L.n == 0) = false := by simp; omega
+  have hl : effLower .U tr = true := by cases tr <;> first | exact absurd rfl htn | rfl
+  have hsp : spTrsv F .U tr unit b = trsvUT F tr unit b := by
+    cases tr
+    · exact absurd rfl htn
+    · simp [spTrsv, hn]
+    · simp [spTrsv, hn]
+  simp only [hsp, trsvRef, hl, if_true]
+  have hUL : (UpLo.U == UpLo.L) = false := rfl
+  have hoff : ∀ i j, i ≠ j → trsvMat F .U tr unit i j = cj tr (F.decodeU j i) := by
+    intro i j hij
+    rw [trsvMat_offdiag F _ _ _ i j hij, opM_tr tr htn]; rfl
+  have hdiag : ∀ i, trsvMat F .U tr unit i i = if unit then 1 else cj tr (F.decodeU i i) := by
+    intro i; unfold trsvMat
+    cases unit
+    · simp only [Bool.false_and, Bool.false_eq_true, if_false, hUL]
+      rw [opM_tr tr htn]
+    · simp
+  rw [getElem!_eq_getD_of_lt (fwdSub _ _ _ _) i (by rw [fwdSub_size]; exact hi)]
+  refine trsvUT_correct F H tr htr unit (trsvMat F .U tr unit) (fun i => b.getD i 0)
+    (fun i => (fwdSub (trsvMat F .U tr unit) (fun i => trsvMat F .U tr unit i i) (fun i => b.getD i 0) F.L.n).getD i 0)
+    hoff hdiag ?_ b hb ?_ i hi
+  · intro i hi
+    exact fwd_rec _ _ _ _ i hi
+  · intro i hi; exact getElem!_eq_getD_of_lt b i (by omega)
+
+/-- **the supernodal model equals the dense reference**, all twelve `uplo × trans × diag` combinations -/
+theorem spTrsv_eq_ref (F : LUFac K) (H : SCLayout F) (uplo : UpLo) (tr : Tr) (htr : tr = Tr.C → ConjOK K)
+    (unit : Bool) (b : Array K) (hb : b.size = F.L.n) :
+    ∀ i, i < F.L.n → (spTrsv F uplo tr unit b)[i]! = (trsvRef F uplo tr unit b)[i]! := by
+  cases uplo
+  · by_cases htn : tr = Tr.N
+    · subst htn; exact spTrsv_LN F H unit b hb
+    · exact spTrsv_LT F H tr htn htr unit b hb
+  · by_cases htn : tr = Tr.N
+    · subst htn; exact spTrsv_UN F H unit b hb
+    · exact spTrsv_UT F H tr htn htr unit b hb
+
+end TR
+
 end Slu.Kernels
